@@ -53,5 +53,7 @@ void TruncatedExponentialDiscreteDistribution::restrictToConstraint(const Constr
     throw ConstraintException("TruncatedExponentialDiscreteDistribution::restrictToConstraint: truncation point outside the constraint", &getParameter_("tp"), getParameterValue("tp"));
 
   AbstractDiscreteDistribution::restrictToConstraint(c);
-  getParameter_("tp").setConstraint(intMinMax_);
+  // The parameter gets its own copy: the domain object is modified in place whenever tp changes, and the parameters
+  // of the copies of this distribution share their constraint object with this parameter.
+  getParameter_("tp").setConstraint(std::shared_ptr<ConstraintInterface>(intMinMax_->clone()));
 }
